@@ -30,6 +30,15 @@ Theorem version_echo_wire : forall St Payload handler known (req : request Paylo
 Proof. exact version_echo_session. Qed.
 Print Assumptions version_echo_wire.
 
+(* every answer path of the session behind the decoding of the request - ordinary answer, request-level refusal by the
+   engine, failed client authentication, unexpected engine failure, response that cannot be encoded, response larger than
+   the Maximum Response Size - carries the request's version *)
+Theorem version_echo_wire_all_paths : forall St Payload handler known f (req : request Payload) (st : St),
+  known (rq_version req) = true ->
+  wire_version (snd (fst (session_answer St Payload handler known f req st))) = rq_version req.
+Proof. exact version_echo_all_paths. Qed.
+Print Assumptions version_echo_wire_all_paths.
+
 (* ---------------------------------------------------------------- refusal *)
 (* any (major, minor) outside the list: InvalidMessage, the state is returned untouched, no handler is entered *)
 Theorem unsupported_refused : forall St Payload handler (req : request Payload) (st : St),
